@@ -2,7 +2,7 @@
 # usage: mutest.sh <mutant-dir-name> <prop> [<prop>...]   -- apply seeded change to /repo, run checks, undo
 M=$1; shift
 D=/tmp/mut/out/$M; [ -d /verif/seeded/$M ] && D=/verif/seeded/$M
-git -C /repo apply -3 $D/patch.diff 2>/dev/null || { echo "patch does not apply"; exit 2; }
+git -C /repo apply $D/patch.diff || { echo "patch does not apply"; exit 2; }
 for p in "$@"; do
   out=$(cd /verif && ./check $p ${TIER:-quick} 2>&1); rc=$?
   echo "== $M vs $p rc=$rc"; echo "$out" | grep -E "^(VIOLATION|BROKEN|DISAGREEMENT|INFRA|KNOWN|OK)" | cut -c1-260
